@@ -32,6 +32,8 @@ mod c_e2e;
 mod c_year;
 #[cfg(feature = "c_fixed")]
 mod c_fixed;
+#[cfg(feature = "c_wskel")]
+mod c_wskel;
 #[cfg(feature = "c_gskel")]
 mod c_gskel;
 #[cfg(feature = "c_evtxr")]
@@ -171,6 +173,8 @@ fn main() {
         "fixed" => if replay { replay_loop(&mut out, c_fixed::replay_line) } else { c_fixed::run(&opts, &mut out) },
         #[cfg(feature = "c_year")]
         "year" => if replay { replay_loop(&mut out, c_year::replay_line) } else { c_year::run(&opts, &mut out) },
+        #[cfg(feature = "c_wskel")]
+        "wskel" => if replay { replay_loop(&mut out, c_wskel::replay_line) } else { c_wskel::run(&opts, &mut out) },
         #[cfg(feature = "c_gskel")]
         "gskel" => if replay { replay_loop(&mut out, c_gskel::replay_line) } else { c_gskel::run(&opts, &mut out) },
         #[cfg(feature = "c_evtxr")]
